@@ -8,7 +8,7 @@
            content) under Read/Write/WriteString/WriteAt/Seek/Truncate, and under ReadAt exactly
            when unionFile.go's ReadAt does not seek the base (constant union_readat_seeks_base). *)
 From AF Require Import Lib.Bytes Lib.Path Lib.Ops Gen.Consts Model.MemFile Model.MemFs Model.Union Model.Cow
-  Model.Cache Model.Stack Proofs.MemFsBasics Proofs.PathProof.
+  Model.Cache Model.Stack Proofs.MemFsBasics Proofs.PathProof Proofs.MemFileProof.
 Local Open Scope Z_scope.
 
 (* ------------------------------------------------------------------------------------------ *)
@@ -824,4 +824,401 @@ Proof.
     unfold s3. rewrite get_node_upd_neq by congruence. exact Hgf.
   - unfold bump, lookup. cbn [mdata]. unfold s3. rewrite mdata_upd. unfold s2, set_data. cbn [mdata].
     apply alist_get_set_eq.
+Qed.
+
+(* ------------------------------------------------------------------------------------------ *)
+(* Part 3: the two handles of a UnionFile stay coherent (MemMapFs layers)                      *)
+(* ------------------------------------------------------------------------------------------ *)
+
+(* mem.File's methods as one function of (handle, content): new handle, new content, result *)
+Definition hsem (o : op) (h : hnd) (data : bytes) : hnd * option bytes * res :=
+  match o with
+  | HRead _ n => let '(h', r) := f_read data h n in (h', None, r)
+  | HReadAt _ n off => let '(h', r) := f_readat data h n off in (h', None, r)
+  | HWrite _ b | HWriteString _ b => let '(d, h', r) := f_write data h b in (h', d, r)
+  | HWriteAt _ b off => let '(d, h', r) := f_writeat data h b off in (h', d, r)
+  | HSeek _ off wh => let '(h', r) := f_seek data h off wh in (h', None, r)
+  | HTruncate _ n => let '(d, r) := f_truncate data h n in (h, d, r)
+  | _ => (h, None, RNoSlot)
+  end.
+Definition hkind (o : op) : bool :=
+  match o with
+  | HRead _ _ | HReadAt _ _ _ | HWrite _ _ | HWriteString _ _ | HWriteAt _ _ _ | HSeek _ _ _ | HTruncate _ _ => true
+  | _ => false
+  end.
+Definition h_new (x : hnd * option bytes * res) : hnd := fst (fst x).
+Definition h_data (x : hnd * option bytes * res) : option bytes := snd (fst x).
+Definition h_res (x : hnd * option bytes * res) : res := snd x.
+
+Lemma hsem_set_handle o j : hsem (op_set_handle o j) = hsem o.
+Proof. destruct o; reflexivity. Qed.
+Lemma hkind_set_handle o j : hkind (op_set_handle o j) = hkind o.
+Proof. destruct o; reflexivity. Qed.
+Lemma op_handle_set o j : hkind o = true -> op_handle_of (op_set_handle o j) = Some j.
+Proof. destruct o; try discriminate; reflexivity. Qed.
+
+Definition new_node (s : mst) (nd : node) (d : option bytes) : node :=
+  match d with Some x => with_mtime (mclock s) (with_data x nd) | None => nd end.
+
+(* one call on handle i of s: the handle and its node change as hsem says, nothing else does *)
+Definition HStep (s s' : mst) (i : nat) (h h' : hnd) (nd' : node) : Prop :=
+  nth_error (mhandles s') i = Some h' /\ href h' = href h /\ get_node s' (href h) = Some nd' /\
+  (forall j, j <> i -> nth_error (mhandles s') j = nth_error (mhandles s) j) /\
+  (forall g, g <> href h -> get_node s' g = get_node s g).
+
+Lemma HStep_refl s i h nd : nth_error (mhandles s) i = Some h -> get_node s (href h) = Some nd -> HStep s s i h h nd.
+Proof. intros Hh Hn. repeat split; auto. Qed.
+
+Lemma HStep_state s i h h' nd d :
+  nth_error (mhandles s) i = Some h -> get_node s (href h) = Some nd -> href h' = href h ->
+  HStep s (bump (put_data (set_handle s i h') (href h) d)) i h h' (new_node s nd d).
+Proof.
+  intros Hh Hn Hf. unfold HStep, put_data, new_node. destruct d as [x|].
+  - repeat split.
+    + unfold bump. cbn [mhandles]. rewrite mhandles_upd. unfold set_handle. cbn [mhandles].
+      apply nth_error_list_set_eq. exact (nth_error_lt _ _ _ Hh).
+    + exact Hf.
+    + exact (get_node_upd_eq (set_handle s i h') (href h) (fun n => with_mtime (mclock s) (with_data x n)) nd Hn).
+    + intros j Hj. unfold bump. cbn [mhandles]. rewrite mhandles_upd. unfold set_handle. cbn [mhandles].
+      apply nth_error_list_set_neq. congruence.
+    + intros g Hg. exact (get_node_upd_neq (set_handle s i h') (href h) _ g Hg).
+  - repeat split.
+    + unfold bump, set_handle. cbn [mhandles]. apply nth_error_list_set_eq. exact (nth_error_lt _ _ _ Hh).
+    + exact Hf.
+    + exact Hn.
+    + intros j Hj. unfold bump, set_handle. cbn [mhandles]. apply nth_error_list_set_neq. congruence.
+Qed.
+
+Lemma HStep_state_same s i h nd d :
+  nth_error (mhandles s) i = Some h -> get_node s (href h) = Some nd ->
+  HStep s (bump (put_data s (href h) d)) i h h (new_node s nd d).
+Proof.
+  intros Hh Hn. unfold HStep, put_data, new_node. destruct d as [x|].
+  - repeat split.
+    + unfold bump. cbn [mhandles]. rewrite mhandles_upd. exact Hh.
+    + exact (get_node_upd_eq s (href h) (fun n => with_mtime (mclock s) (with_data x n)) nd Hn).
+    + intros j Hj. unfold bump. cbn [mhandles]. rewrite mhandles_upd. reflexivity.
+    + intros g Hg. exact (get_node_upd_neq s (href h) _ g Hg).
+  - repeat split; auto.
+Qed.
+
+(* every mem.File method keeps the node the handle refers to *)
+Lemma hsem_href o h data : href (h_new (hsem o h data)) = href h.
+Proof.
+  unfold h_new. destruct o; try reflexivity; cbn [hsem].
+  - unfold f_read. repeat match goal with |- context [if ?c then _ else _] => destruct c end; reflexivity.
+  - pose proof (f_readat_handle data h n off) as H. destruct (f_readat data h n off) as [h' r]. cbn [fst] in *. now subst.
+  - unfold f_write. repeat match goal with |- context [if ?c then _ else _] => destruct c end; reflexivity.
+  - pose proof (f_writeat_handle data h b off) as H. destruct (f_writeat data h b off) as [[d h'] r]. cbn [fst snd] in *. now subst.
+  - unfold f_write. repeat match goal with |- context [if ?c then _ else _] => destruct c end; reflexivity.
+  - unfold f_seek. repeat match goal with |- context [if ?c then _ else _] => destruct c end; reflexivity.
+  - destruct (f_truncate data h n) as [d r]. reflexivity.
+Qed.
+
+Lemma mstep_hsem s o i h nd :
+  hkind o = true -> op_handle_of o = Some i ->
+  nth_error (mhandles s) i = Some h -> get_node s (href h) = Some nd ->
+  exists s', m_step s o = (s', h_res (hsem o h (ndata nd))) /\
+             HStep s s' i h (h_new (hsem o h (ndata nd))) (new_node s nd (h_data (hsem o h (ndata nd)))).
+Proof.
+  intros Hk Ho Hh Hn. pose proof (hsem_href o h (ndata nd)) as Hf.
+  destruct o; try discriminate Hk; cbn [op_handle_of] in Ho; inversion Ho; subst;
+    rewrite m_step_bump; cbn [m_step_raw]; unfold m_hop; rewrite Hh, Hn; unfold h_res, h_new, h_data in *; cbn [hsem] in *.
+  - destruct (f_read (ndata nd) h n) as [h' r]. cbn [fst snd] in *. eexists. split; [reflexivity|].
+    apply (HStep_state s i h h' nd None Hh Hn Hf).
+  - destruct (f_readat (ndata nd) h n off) as [h' r]. cbn [fst snd] in *. eexists. split; [reflexivity|].
+    apply (HStep_state s i h h' nd None Hh Hn Hf).
+  - destruct (f_write (ndata nd) h b) as [[d h'] r]. cbn [fst snd] in *. eexists. split; [reflexivity|].
+    apply (HStep_state s i h h' nd d Hh Hn Hf).
+  - destruct (f_writeat (ndata nd) h b off) as [[d h'] r]. cbn [fst snd] in *. eexists. split; [reflexivity|].
+    apply (HStep_state s i h h' nd d Hh Hn Hf).
+  - destruct (f_write (ndata nd) h b) as [[d h'] r]. cbn [fst snd] in *. eexists. split; [reflexivity|].
+    apply (HStep_state s i h h' nd d Hh Hn Hf).
+  - destruct (f_seek (ndata nd) h off whence) as [h' r]. cbn [fst snd] in *. eexists. split; [reflexivity|].
+    apply (HStep_state s i h h' nd None Hh Hn Hf).
+  - destruct (f_truncate (ndata nd) h n) as [d r]. cbn [fst snd] in *. eexists. split; [reflexivity|].
+    apply (HStep_state_same s i h nd d Hh Hn).
+Qed.
+
+(* what the methods look at: offset, closed flag, read-only flag and the content *)
+Definition hnorm (h : hnd) : hnd := mkH 0 (hat h) 0 (hclosed h) (hro h).
+Definition hproj_eq (a b : hnd) : Prop := hat a = hat b /\ hclosed a = hclosed b /\ hro a = hro b.
+
+Ltac ifs := repeat (match goal with |- context [if ?c then _ else _] => destruct c eqn:? end;
+                    cbn [fst snd hat hclosed hro href hrdc set_at h_new h_data h_res]).
+
+Lemma hsem_norm o h data :
+  hproj_eq (h_new (hsem o h data)) (h_new (hsem o (hnorm h) data)) /\
+  h_data (hsem o h data) = h_data (hsem o (hnorm h) data) /\
+  h_res (hsem o h data) = h_res (hsem o (hnorm h) data).
+Proof.
+  destruct h as [f a c cl ro]. unfold hnorm, hproj_eq, h_new, h_data, h_res. cbn [hat hclosed hro].
+  destruct o; cbn [hsem fst snd]; try (repeat split; reflexivity).
+  - unfold f_read. cbn [hat hclosed hro set_at href hrdc]. ifs; repeat split; reflexivity.
+  - unfold f_readat, f_read. cbn [hat hclosed hro set_at href hrdc]. ifs; repeat split; reflexivity.
+  - unfold f_write. cbn [hat hclosed hro set_at href hrdc]. ifs; repeat split; reflexivity.
+  - unfold f_writeat, f_write. cbn [hat hclosed hro set_at href hrdc]. ifs; repeat split; reflexivity.
+  - unfold f_write. cbn [hat hclosed hro set_at href hrdc]. ifs; repeat split; reflexivity.
+  - unfold f_seek. cbn [hat hclosed hro set_at href hrdc]. ifs; repeat split; reflexivity.
+  - unfold f_truncate. cbn [hat hclosed hro set_at href hrdc]. ifs; repeat split; reflexivity.
+Qed.
+
+Lemma hnorm_eq a b : hproj_eq a b -> hnorm a = hnorm b.
+Proof. intros [H1 [H2 H3]]. unfold hnorm. now rewrite H1, H2, H3. Qed.
+
+(* equal offset / flags / content: the same call gives equal offset / flags / content / result *)
+Lemma hsem_same o h1 h2 data :
+  hproj_eq h1 h2 ->
+  hproj_eq (h_new (hsem o h1 data)) (h_new (hsem o h2 data)) /\
+  h_data (hsem o h1 data) = h_data (hsem o h2 data) /\ h_res (hsem o h1 data) = h_res (hsem o h2 data).
+Proof.
+  intros He. destruct (hsem_norm o h1 data) as [[A1 [A2 A3]] [A4 A5]].
+  destruct (hsem_norm o h2 data) as [[B1 [B2 B3]] [B4 B5]]. rewrite (hnorm_eq _ _ He) in *.
+  unfold hproj_eq. repeat split; congruence.
+Qed.
+
+(* no method opens, closes or changes the access mode of a handle *)
+Lemma hsem_caps o h data : hclosed (h_new (hsem o h data)) = hclosed h /\ hro (h_new (hsem o h data)) = hro h.
+Proof.
+  unfold h_new. destruct o; try (split; reflexivity); cbn [hsem].
+  - destruct h as [f a c cl ro]. unfold f_read. cbn [hat hclosed hro set_at href hrdc]. ifs; split; reflexivity.
+  - pose proof (f_readat_handle data h n off) as H. destruct (f_readat data h n off) as [h' r]. cbn [fst] in *. subst. now split.
+  - destruct h as [f a c cl ro]. unfold f_write. cbn [hat hclosed hro set_at href hrdc]. ifs; split; reflexivity.
+  - pose proof (f_writeat_handle data h b off) as H. destruct (f_writeat data h b off) as [[d h'] r]. cbn [fst snd] in *. subst. now split.
+  - destruct h as [f a c cl ro]. unfold f_write. cbn [hat hclosed hro set_at href hrdc]. ifs; split; reflexivity.
+  - destruct h as [f a c cl ro]. unfold f_seek. cbn [hat hclosed hro set_at href hrdc]. ifs; split; reflexivity.
+  - destruct (f_truncate data h n) as [d r]. now split.
+Qed.
+
+Definition write_like (o : op) : bool :=
+  match o with HWrite _ _ | HWriteString _ _ | HWriteAt _ _ _ | HTruncate _ _ => true | _ => false end.
+
+(* a failed Write / WriteString / WriteAt / Truncate changes neither the content nor the offset *)
+Lemma hsem_write_err o h data :
+  write_like o = true -> res_err (h_res (hsem o h data)) <> None ->
+  h_data (hsem o h data) = None /\ hat (h_new (hsem o h data)) = hat h.
+Proof.
+  intros Hw. destruct h as [f a c cl ro]. unfold h_res, h_data, h_new.
+  destruct o; try discriminate Hw; cbn [hsem].
+  - unfold f_write. cbn [hat hclosed hro set_at href hrdc]. ifs; cbn [res_err]; intros H; try (now split); contradiction.
+  - unfold f_writeat, f_write. cbn [hat hclosed hro set_at href hrdc]. ifs; cbn [res_err]; intros H; try (now split); contradiction.
+  - unfold f_write. cbn [hat hclosed hro set_at href hrdc]. ifs; cbn [res_err]; intros H; try (now split); contradiction.
+  - unfold f_truncate. cbn [hat hclosed hro set_at href hrdc]. ifs; cbn [res_err]; intros H; try (now split); contradiction.
+Qed.
+
+(* Seek: never touches the content; a failed Seek keeps the offset *)
+Lemma hsem_seek i off wh h data :
+  h_data (hsem (HSeek i off wh) h data) = None /\
+  (res_err (h_res (hsem (HSeek i off wh) h data)) <> None -> hat (h_new (hsem (HSeek i off wh) h data)) = hat h).
+Proof.
+  destruct h as [f a c cl ro]. unfold h_res, h_data, h_new. cbn [hsem]. unfold f_seek.
+  cbn [hat hclosed hro set_at href hrdc]. ifs; cbn [res_err]; split; try reflexivity; intros H; try reflexivity; contradiction.
+Qed.
+
+Lemma hsem_seek_cur i c h data :
+  hclosed h = false -> 0 <= hat h + c ->
+  hsem (HSeek i c 1) h data = (set_at h (hat h + c), None, RPos (hat h + c) None).
+Proof.
+  intros Hc Hp. cbn [hsem]. unfold f_seek. rewrite Hc. cbn [Z.eqb Pos.eqb].
+  assert (E : (hat h + c <? 0) = false) by (apply Z.ltb_ge; lia). rewrite E. reflexivity.
+Qed.
+
+(* Read with a buffer of n >= 0 bytes *)
+Lemma hsem_read i n h data :
+  0 <= n ->
+  let x := hsem (HRead i n) h data in
+  h_data x = None /\
+  (ok_or_eof (res_err (h_res x)) = true ->
+     hclosed h = false /\ 0 <= hat h /\ 0 <= count_of (h_res x) /\ hat (h_new x) = hat h + count_of (h_res x)) /\
+  (ok_or_eof (res_err (h_res x)) = false -> hat (h_new x) = hat h).
+Proof.
+  intros Hn. destruct h as [f a c cl ro]. cbv zeta. unfold h_res, h_data, h_new. cbn [hsem]. unfold f_read.
+  cbn [hat hclosed hro set_at href hrdc].
+  destruct cl; [cbn; repeat split; intros; try discriminate; reflexivity|].
+  destruct ((0 <? n) && (a =? zlen data)) eqn:E1.
+  { apply andb_true_iff in E1 as [_ E1]. apply Z.eqb_eq in E1. pose proof (zlen_ge0 data).
+    cbn [fst snd res_err ok_or_eof is_eof_err ek E errk_eqb count_of zlen length Z.of_nat hat].
+    repeat split; intros; try discriminate; lia. }
+  destruct (zlen data <? a) eqn:E2; [cbn; repeat split; intros; try discriminate; reflexivity|].
+  destruct (a <? 0) eqn:E3; [cbn; repeat split; intros; try discriminate; reflexivity|].
+  apply Z.ltb_ge in E2, E3. cbn [fst snd res_err ok_or_eof count_of hat].
+  set (k := if n <=? zlen data - a then n else zlen data - a).
+  assert (Hk : 0 <= k /\ a + k <= zlen data) by (unfold k; destruct (n <=? zlen data - a) eqn:E4; [apply Z.leb_le in E4|]; lia).
+  clearbody k. destruct Hk as [Hk1 Hk2]. rewrite !zlen_slice by lia. cbn [hat set_at]. repeat split; intros; try discriminate; lia.
+Qed.
+
+(* the offsets and flags of the two handles agree and so do the contents they refer to *)
+Definition PairCoh (sb sl : mst) (bh lh : nat) : Prop :=
+  exists hb hl nb nl, nth_error (mhandles sb) bh = Some hb /\ nth_error (mhandles sl) lh = Some hl /\
+    get_node sb (href hb) = Some nb /\ get_node sl (href hl) = Some nl /\
+    hproj_eq hb hl /\ ndata nb = ndata nl.
+
+Definition coh_op (o : op) : bool :=
+  match o with
+  | HRead _ n => 0 <=? n
+  | HReadAt _ _ _ | HWrite _ _ | HWriteString _ _ | HWriteAt _ _ _ | HSeek _ _ _ | HTruncate _ _ => true
+  | _ => false
+  end.
+
+Lemma new_node_data s nd d : ndata (new_node s nd d) = match d with Some x => x | None => ndata nd end.
+Proof. destruct d; reflexivity. Qed.
+
+(* Write / WriteString / WriteAt / Truncate through the UnionFile: layer first, then (unless it failed) base *)
+Lemma uf_write_like (sb sl : mst) (bh lh : nat) (u : ufile) (o : op) hb hl nb nl :
+  write_like o = true ->
+  nth_error (mhandles sb) bh = Some hb -> nth_error (mhandles sl) lh = Some hl ->
+  get_node sb (href hb) = Some nb -> get_node sl (href hl) = Some nl ->
+  hproj_eq hb hl -> ndata nb = ndata nl ->
+  exists (sb' sl' : mst) (r : res) hb' hl' nb' nl',
+    (let '(sl1, r) := m_step sl (op_set_handle o lh) in
+     match Some bh, res_err r with
+     | Some bh, None => let '(sb1, rb) := m_step sb (op_set_handle o bh) in (sb1, sl1, u, set_err r (res_err rb))
+     | _, _ => (sb, sl1, u, r)
+     end) = (sb', sl', u, r) /\
+    HStep sb sb' bh hb hb' nb' /\ HStep sl sl' lh hl hl' nl' /\ hproj_eq hb' hl' /\ ndata nb' = ndata nl'.
+Proof.
+  intros Hw Hbh Hlh Hbn Hln Hp Hd.
+  assert (Hk : hkind o = true) by (destruct o; try discriminate Hw; reflexivity).
+  destruct (mstep_hsem sl (op_set_handle o lh) lh hl nl) as [sl' [Hs Hst]];
+    [now rewrite hkind_set_handle | now apply op_handle_set | exact Hlh | exact Hln |].
+  rewrite hsem_set_handle in *. rewrite Hs.
+  destruct (res_err (h_res (hsem o hl (ndata nl)))) as [e|] eqn:Er.
+  - (* the layer call failed: the base is not called, the layer handle keeps offset and content *)
+    destruct (hsem_write_err o hl (ndata nl) Hw) as [Hnone Hat]; [rewrite Er; discriminate|].
+    destruct (hsem_caps o hl (ndata nl)) as [Hc1 Hc2].
+    exists sb, sl', (h_res (hsem o hl (ndata nl))), hb, (h_new (hsem o hl (ndata nl))), nb, (new_node sl nl (h_data (hsem o hl (ndata nl)))).
+    split; [reflexivity|]. split; [apply HStep_refl; assumption|]. split; [exact Hst|].
+    rewrite Hnone. cbn [new_node]. destruct Hp as [P1 [P2 P3]]. unfold hproj_eq. repeat split; congruence.
+  - destruct (mstep_hsem sb (op_set_handle o bh) bh hb nb) as [sb' [Hsb Hstb]];
+      [now rewrite hkind_set_handle | now apply op_handle_set | exact Hbh | exact Hbn |].
+    rewrite hsem_set_handle in *. rewrite Hsb.
+    destruct (hsem_same o hb hl (ndata nl) Hp) as [Q1 [Q2 Q3]].
+    eexists sb', sl', _, _, _, _, _. split; [reflexivity|]. split; [exact Hstb|]. split; [exact Hst|].
+    rewrite Hd. split; [exact Q1|]. rewrite !new_node_data, Q2, Hd. reflexivity.
+Qed.
+
+(* C11 (handles): one method of a UnionFile over two coherent handles leaves them coherent.
+   ReadAt: exactly when unionFile.go's ReadAt does not seek the base handle. *)
+Theorem uf_op_coherent (sb sl : mst) (bh lh : nat) (off : Z) (files : list finfo) (o : op) hb hl nb nl :
+  coh_op o = true ->
+  (forall i n k, o = HReadAt i n k -> union_readat_seeks_base = 0) ->
+  nth_error (mhandles sb) bh = Some hb -> nth_error (mhandles sl) lh = Some hl ->
+  get_node sb (href hb) = Some nb -> get_node sl (href hl) = Some nl ->
+  hproj_eq hb hl -> ndata nb = ndata nl ->
+  exists (sb' sl' : mst) (r : res) hb' hl' nb' nl',
+    uf_op m_step m_step sb sl (mkUF (Some bh) (Some lh) off files) o =
+      (sb', sl', mkUF (Some bh) (Some lh) off files, r) /\
+    HStep sb sb' bh hb hb' nb' /\ HStep sl sl' lh hl hl' nl' /\ hproj_eq hb' hl' /\ ndata nb' = ndata nl'.
+Proof.
+  intros Hc Hfix Hbh Hlh Hbn Hln Hp Hd.
+  destruct o; try discriminate Hc; cbn [uf_op ulayer ubase].
+  - (* Read: the layer reads, the base seeks forward by the count *)
+    apply Z.leb_le in Hc.
+    destruct (mstep_hsem sl (HRead lh n) lh hl nl eq_refl eq_refl Hlh Hln) as [sl' [Hs Hst]]. rewrite Hs.
+    destruct (hsem_read lh n hl (ndata nl) Hc) as [Hnone [Hok Hno]]. cbv zeta in *.
+    destruct (hsem_caps (HRead lh n) hl (ndata nl)) as [Hc1 Hc2].
+    destruct Hp as [P1 [P2 P3]].
+    set (x := hsem (HRead lh n) hl (ndata nl)) in *.
+    destruct (ok_or_eof (res_err (h_res x))) eqn:E.
+    + destruct (Hok eq_refl) as [Hcl [Hat0 [Hcnt Hnew]]].
+      destruct (mstep_hsem sb (HSeek bh (count_of (h_res x)) 1) bh hb nb eq_refl eq_refl Hbh Hbn) as [sb' [Hsb Hstb]].
+      rewrite (hsem_seek_cur bh (count_of (h_res x)) hb (ndata nb)) in * by (try congruence; lia).
+      unfold h_res, h_new, h_data in *. cbn [fst snd new_node] in Hsb, Hstb. rewrite Hsb. cbn [res_err].
+      eexists sb', sl', _, _, _, _, _. split; [reflexivity|]. split; [exact Hstb|]. split; [exact Hst|].
+      rewrite Hnone. cbn [new_node]. split; [|exact Hd].
+      unfold hproj_eq. cbn [hat hclosed hro set_at]. repeat split; congruence.
+    + exists sb, sl', (h_res x), hb, (h_new x), nb, (new_node sl nl (h_data x)).
+      split; [reflexivity|]. split; [apply HStep_refl; assumption|]. split; [exact Hst|].
+      rewrite Hnone. cbn [new_node]. split; [|exact Hd].
+      specialize (Hno eq_refl). unfold hproj_eq. repeat split; congruence.
+  - (* ReadAt: only the layer, provided ReadAt does not seek the base *)
+    rewrite (Hfix h n off0 eq_refl). cbn [Z.eqb andb].
+    destruct (mstep_hsem sl (HReadAt lh n off0) lh hl nl eq_refl eq_refl Hlh Hln) as [sl' [Hs Hst]]. rewrite Hs.
+    assert (Hn : h_new (hsem (HReadAt lh n off0) hl (ndata nl)) = hl /\ h_data (hsem (HReadAt lh n off0) hl (ndata nl)) = None).
+    { unfold h_new, h_data. cbn [hsem]. pose proof (f_readat_handle (ndata nl) hl n off0) as H.
+      destruct (f_readat (ndata nl) hl n off0) as [h' r]. cbn [fst snd] in *. now subst. }
+    destruct Hn as [Hn1 Hn2]. rewrite Hn1, Hn2 in Hst. cbn [new_node] in Hst.
+    eexists sb, sl', _, hb, hl, nb, nl. split; [reflexivity|]. split; [apply HStep_refl; assumption|].
+    split; [exact Hst|]. split; assumption.
+  - exact (uf_write_like sb sl bh lh _ (HWrite h b) hb hl nb nl eq_refl Hbh Hlh Hbn Hln Hp Hd).
+  - exact (uf_write_like sb sl bh lh _ (HWriteAt h b off0) hb hl nb nl eq_refl Hbh Hlh Hbn Hln Hp Hd).
+  - exact (uf_write_like sb sl bh lh _ (HWriteString h b) hb hl nb nl eq_refl Hbh Hlh Hbn Hln Hp Hd).
+  - (* Seek: the layer, then (unless it failed) the same Seek on the base *)
+    destruct (mstep_hsem sl (HSeek lh off0 whence) lh hl nl eq_refl eq_refl Hlh Hln) as [sl' [Hs Hst]]. rewrite Hs.
+    destruct (hsem_seek lh off0 whence hl (ndata nl)) as [Hnone Herr].
+    destruct (hsem_caps (HSeek lh off0 whence) hl (ndata nl)) as [Hc1 Hc2].
+    set (x := hsem (HSeek lh off0 whence) hl (ndata nl)) in *.
+    destruct (ok_or_eof (res_err (h_res x))) eqn:E.
+    + destruct (mstep_hsem sb (HSeek bh off0 whence) bh hb nb eq_refl eq_refl Hbh Hbn) as [sb' [Hsb Hstb]].
+      rewrite Hsb.
+      destruct (hsem_same (HSeek bh off0 whence) hb hl (ndata nl) Hp) as [Q1 [Q2 Q3]].
+      change (hsem (HSeek bh off0 whence) hl (ndata nl)) with x in Q1, Q2, Q3.
+      eexists sb', sl', _, _, _, _, _. split; [reflexivity|]. split; [exact Hstb|]. split; [exact Hst|].
+      rewrite Hd. split; [exact Q1|]. rewrite !new_node_data, Q2, Hd. reflexivity.
+    + assert (Hne : res_err (h_res x) <> None) by (intros Hq; rewrite Hq in E; discriminate E).
+      specialize (Herr Hne). destruct Hp as [P1 [P2 P3]].
+      exists sb, sl', (h_res x), hb, (h_new x), nb, (new_node sl nl (h_data x)).
+      split; [reflexivity|]. split; [apply HStep_refl; assumption|]. split; [exact Hst|].
+      rewrite Hnone. cbn [new_node]. split; [|exact Hd]. unfold hproj_eq. repeat split; congruence.
+  - exact (uf_write_like sb sl bh lh _ (HTruncate h n) hb hl nb nl eq_refl Hbh Hlh Hbn Hln Hp Hd).
+Qed.
+
+Corollary pair_coh_preserved (sb sl : mst) bh lh off files o :
+  coh_op o = true -> (forall i n k, o = HReadAt i n k -> union_readat_seeks_base = 0) ->
+  PairCoh sb sl bh lh ->
+  exists sb' sl' r, uf_op m_step m_step sb sl (mkUF (Some bh) (Some lh) off files) o =
+                      (sb', sl', mkUF (Some bh) (Some lh) off files, r) /\ PairCoh sb' sl' bh lh.
+Proof.
+  intros Hc Hfix [hb [hl [nb [nl [Hbh [Hlh [Hbn [Hln [Hp Hd]]]]]]]]].
+  destruct (uf_op_coherent sb sl bh lh off files o hb hl nb nl Hc Hfix Hbh Hlh Hbn Hln Hp Hd)
+    as [sb' [sl' [r [hb' [hl' [nb' [nl' [He [[B1 [B2 [B3 _]]] [[L1 [L2 [L3 _]]] [Hp' Hd']]]]]]]]]]].
+  exists sb', sl', r. split; [exact He|]. exists hb', hl', nb', nl'. rewrite B2, L2.
+  exact (conj B1 (conj L1 (conj B3 (conj L3 (conj Hp' Hd'))))).
+Qed.
+
+(* --- the handle table of the caching filesystem --- *)
+Definition Coh (st : mst * mst * list chandle) : Prop :=
+  let '(sb, sl, tbl) := st in
+  forall i u bh lh, nth_error tbl i = Some (HU u) -> ubase u = Some bh -> ulayer u = Some lh -> PairCoh sb sl bh lh.
+
+(* the other UnionFiles of the table use other inner handles, and refer to the same base file exactly
+   when they refer to the same cached file (what opening the same name in both layers produces) *)
+Definition Aligned (st : mst * mst * list chandle) (i : nat) : Prop :=
+  let '(sb, sl, tbl) := st in
+  forall u bh lh hb hl, nth_error tbl i = Some (HU u) -> ubase u = Some bh -> ulayer u = Some lh ->
+    nth_error (mhandles sb) bh = Some hb -> nth_error (mhandles sl) lh = Some hl ->
+    forall j u2 bh2 lh2 hb2 hl2, j <> i -> nth_error tbl j = Some (HU u2) -> ubase u2 = Some bh2 -> ulayer u2 = Some lh2 ->
+      nth_error (mhandles sb) bh2 = Some hb2 -> nth_error (mhandles sl) lh2 = Some hl2 ->
+      bh2 <> bh /\ lh2 <> lh /\ (href hb2 = href hb <-> href hl2 = href hl).
+
+Theorem Coh_preserved_partial dur now (sb sl : mst) tbl i u bh lh o :
+  Coh (sb, sl, tbl) -> Aligned (sb, sl, tbl) i ->
+  nth_error tbl i = Some (HU u) -> ubase u = Some bh -> ulayer u = Some lh ->
+  op_handle_of o = Some i -> coh_op o = true ->
+  (forall i n k, o = HReadAt i n k -> union_readat_seeks_base = 0) ->
+  Coh (fst (cache_step m_step m_step dur now (sb, sl, tbl) o)).
+Proof.
+  intros HC HA Hn Hub Hul Ho Hc Hfix. destruct u as [ob ol off files]. cbn [ubase ulayer] in Hub, Hul. subst ob ol.
+  destruct (HC i _ bh lh Hn eq_refl eq_refl) as [hb [hl [nb [nl [Hbh [Hlh [Hbn [Hln [Hp Hd]]]]]]]]].
+  destruct (uf_op_coherent sb sl bh lh off files o hb hl nb nl Hc Hfix Hbh Hlh Hbn Hln Hp Hd)
+    as [sb' [sl' [r [hb' [hl' [nb' [nl' [He [[B1 [B2 [B3 [B4 B5]]]] [[L1 [L2 [L3 [L4 L5]]]] [Hp' Hd']]]]]]]]]]].
+  assert (Hstep : cache_step m_step m_step dur now (sb, sl, tbl) o =
+                  ((sb', sl', list_set i (HU (mkUF (Some bh) (Some lh) off files)) tbl), r)).
+  { destruct o; try discriminate Hc; cbn [op_handle_of] in Ho; inversion Ho; subst;
+      cbn [cache_step op_handle_of]; rewrite Hn, He; reflexivity. }
+  rewrite Hstep. cbn [fst]. unfold Coh. intros k u2 bh2 lh2 Hk Hub2 Hul2.
+  destruct (Nat.eq_dec k i) as [->|Hki].
+  - rewrite nth_error_list_set_eq in Hk by exact (nth_error_lt _ _ _ Hn). inversion Hk; subst u2.
+    cbn [ubase ulayer] in Hub2, Hul2. inversion Hub2; inversion Hul2; subst bh2 lh2.
+    exists hb', hl', nb', nl'. rewrite B2, L2. exact (conj B1 (conj L1 (conj B3 (conj L3 (conj Hp' Hd'))))).
+  - rewrite nth_error_list_set_neq in Hk by congruence.
+    destruct (HC k u2 bh2 lh2 Hk Hub2 Hul2) as [hb2 [hl2 [nb2 [nl2 [Hbh2 [Hlh2 [Hbn2 [Hln2 [Hp2 Hd2]]]]]]]]].
+    destruct (HA _ bh lh hb hl Hn eq_refl eq_refl Hbh Hlh k u2 bh2 lh2 hb2 hl2 Hki Hk Hub2 Hul2 Hbh2 Hlh2) as [Nb [Nl Hal]].
+    destruct (Nat.eq_dec (href hb2) (href hb)) as [Eb|Eb].
+    + pose proof (proj1 Hal Eb) as El.
+      exists hb2, hl2, nb', nl'. rewrite (B4 bh2 Nb), (L4 lh2 Nl), Eb, El.
+      exact (conj Hbh2 (conj Hlh2 (conj B3 (conj L3 (conj Hp2 Hd'))))).
+    + assert (El : href hl2 <> href hl) by (intros Hq; apply Eb, Hal, Hq).
+      exists hb2, hl2, nb2, nl2. rewrite (B4 bh2 Nb), (L4 lh2 Nl), (B5 _ Eb), (L5 _ El).
+      exact (conj Hbh2 (conj Hlh2 (conj Hbn2 (conj Hln2 (conj Hp2 Hd2))))).
 Qed.
